@@ -59,6 +59,15 @@ def gen(tier, seed):
                             yield 'sc %s %d %s %s S.0.%d p.0.%s #rnd/rnd/set64' % (v, rounds, key, nonce, st, rng.data(ln))
                 elif v in ('pchacha', 'pxchacha'):
                     pass
+    # every data length 0..=300 in one call, from block 0 and from a random starting block (20 rounds; other round counts sampled)
+    for v, (klens, nl, bits, has_seek) in VARIANTS.items():
+        for n in range(0, 301):
+            rounds = 20 if n % 4 else rng.choice([8, 12])
+            kl = rng.choice(klens)
+            if n % 2:
+                yield 'sc %s %d %s %s p.0.%s #rnd/rnd/lensweep' % (v, rounds, rng.data(kl), rng.data(nl), rng.data(n))
+            else:
+                yield 'sc %s %d %s %s %s.0.%d p.0.%s #rnd/rnd/lensweep' % (v, rounds, rng.data(kl), rng.data(nl), 's' if has_seek else 'S', rng.below(1 << min(bits, 40)), rng.data(n))
     reps = 60 if thorough else 12
     for _ in range(reps):
         for v, (klens, nl, bits, has_seek) in VARIANTS.items():
